@@ -151,7 +151,9 @@ def geomOfView (v : View) (mods : Option (List Id)) : String :=
     match v.find id with
     | some fv => toString id ++ tagsText fv.f.tags
     | none => toString id ++ "?"
+  let refs := allIds.map fun id => toString id ++ "<" ++ idsText (sortIds (v.refs id))
   let base := " ".intercalate per ++ " | " ++ " ".intercalate toks ++ " | each:" ++ renderList each
+    ++ " | refs:" ++ " ".intercalate refs
   match mods with
   | some m => base ++ " | mod:" ++ idList (sortIds m)
   | none => base
